@@ -26,8 +26,9 @@ theorem cls_unite (s : MV) (p : Part) (d e : Nat) (hd1 : 1 ≤ d) (hd2 : d ≤ s
     intro v hv
     obtain ⟨k, hk, rfl⟩ := Finset.mem_image.1 hv
     rw [Finset.mem_erase]
-    simp only [Part.unite]
-    by_cases hke : p (k + 1) = p e
+    show (p.unite d e).find (k + 1) ≠ p.find e ∧ (p.unite d e).find (k + 1) ∈ _
+    rw [find_unite]
+    by_cases hke : p.find (k + 1) = p.find e
     · simp only [hke, if_true]
       exact ⟨hne, Finset.mem_image.2 ⟨d - 1, Finset.mem_range.2 (by omega), by congr 1; omega⟩⟩
     · simp only [hke, if_false]
